@@ -8,6 +8,19 @@ brute-force specification on the same population inside Coq (vm_compute).  Whene
 find_sound_complete hold for the case (checked by Coq: no_gaps, well placed, short, valid, lookback_ok) the
 specification decides: a disagreement is a failing input of the property.  Outside the hypotheses the real
 code is compared with the algorithmic model only (kind "correspondence").
+
+Extension (stability, time bins, cost):
+ * stability (find_sorted_stable / find_result_unique): for queries on populations with equal (t0, t1) the harness
+   also asks the same FileSet for the unsorted stream (sort=False) and checks on the real output that the files of
+   every coverage keep the order of that stream.  The law is relative to the walk the code really does (it is
+   fsspec's sorted listing, which the harness predicts and counts, but does not require): kind "correspondence",
+   because the property statement fixes the order by (t0, t1) only.
+ * time bins (bin_edges / bundle_freq_bins): a stream of cases with files placed on the edges (+- one unit) of the
+   bins of widths that do and do not divide a day (7h, 90min, 1D, 36h); Coq prints the bins of the expected
+   sequence [number, left edge, right edge, size]; the real bundles must fill exactly these bins and pandas' own
+   group labels (the trusted Grouper, called by the harness on the same start times) must be the left edges.
+ * the algorithmic model is evaluated only where it decides (outside the hypotheses) or on a sample: inside them
+   find_sound_complete makes it equal to the specification, and the directory pruning is the expensive part.
 """
 import datetime as dt
 import os
@@ -25,8 +38,9 @@ TRUSTED = [
     "canonical comparison of id sequences up to ties of (t0, t1))",
     "Python re on the anchored regex generated from the template (deterministic class of C02: fixed-width digits, "
     "alphabetic placeholder values separated by delimiters), glob order, os / fsspec directory listing",
-    "pandas Grouper for string bundles is modelled as fixed-width bins anchored at midnight of the first start time "
-    "(tick frequencies only)",
+    "pandas Grouper(freq=w) is modelled as the bins [o + k w, o + (k+1) w), o = midnight of the first start time "
+    "(origin 'start_day', closed left); its group labels are compared with these left edges on every generated "
+    "time-bundle query (widths 30min, 1h, 90min, 6h, 7h, 1D, 36h, 2D), the grouping itself stays pandas' ",
     "parsing of names into time coverages (property C02); the coverage FileInfo.times is compared with the "
     "harness' own arithmetic on every file found",
 ]
@@ -42,7 +56,9 @@ UNIT_US = {"year": 366 * 86400 * 10**6, "month": 31 * 86400 * 10**6, "day": 8640
 TF = {"year": ["FYear"], "year2": ["FYear"], "month": ["FMonth"], "day": ["FDay"], "doy": ["FMonth", "FDay"],
       "hour": ["FHour"], "minute": ["FMinute"], "second": ["FSecond"]}
 FREQS = {"1h": 3600 * 10**6, "6h": 6 * 3600 * 10**6, "1D": 86400 * 10**6, "2D": 2 * 86400 * 10**6,
-         "30min": 1800 * 10**6, "7h": 7 * 3600 * 10**6}
+         "30min": 1800 * 10**6, "7h": 7 * 3600 * 10**6, "90min": 5400 * 10**6, "36h": 36 * 3600 * 10**6}
+EDGE_FREQS = ["7h", "90min", "1D", "36h"]          # widths that do not / do divide a day, below and above one day
+DAY_US = 86400 * 10**6
 
 
 def to_us(d):
@@ -240,6 +256,10 @@ def anchors(rng):
 def gen_case(rng, k, stream="main"):
     gap = stream == "gap"
     chunks, fp, users, file_res, end_style, fields = gen_layout(rng, gap)
+    bins = stream == "bins"
+    while bins and UNIT_US[file_res] > UNIT_US["minute"]:          # the bin edges need at least minutes in the names
+        chunks, fp, users, file_res, end_style, fields = gen_layout(rng, gap)
+    bin_freq = rng.choice(EDGE_FREQS) if bins else None
     case = {"id": k, "stream": stream, "chunks": chunks, "filepart": fp, "file_res": file_res,
             "end_style": end_style, "time_coverage": None, "zip": False}
     unit = UNIT_US[file_res]
@@ -254,10 +274,19 @@ def gen_case(rng, k, stream="main"):
             tc = (span + rng.randint(1, span)) // unit * unit
         case["time_coverage"] = tc
     files, seen = [], set()
+    if bins:
+        n = rng.choice([3, 5, 8, 12, 16, 24])
+        day0 = anc[0] // DAY_US * DAY_US
     for _ in range(n):
         a = rng.choice(anc)
         style = rng.random()
-        if style < 0.3:
+        if bins:
+            # on / one unit around / inside the bins of width w counted from midnight of day0; a few files on the day
+            # before (when the period admits them they move the anchor of all bins)
+            w = FREQS[bin_freq]
+            j = rng.randint(-(DAY_US // w) - 1, 3 * DAY_US // w + 1)
+            off = day0 + j * w + rng.choice([0, 0, -unit, unit, -1, rng.randint(0, w - 1)]) - a
+        elif style < 0.3:
             off = rng.choice([0, -1, 1, -10**6, 10**6, -60 * 10**6, 60 * 10**6, -3600 * 10**6, 3600 * 10**6])
         elif style < 0.5 and files:
             off = rng.choice(files)["t0"] - a                     # same start time as another file
@@ -355,9 +384,12 @@ def gen_case(rng, k, stream="main"):
                     filt["!" + u] = vals if rng.random() < 0.6 else vals[0]
             if rng.random() < 0.1:
                 filt[rng.choice(["zz", "!zz"])] = ["q"]            # a placeholder that is not in the path
-        bundle = rng.choice([None, None, None, 1, 2, 3, 5, "1h", "6h", "1D", "2D", "30min", "7h"])
+        bundle = rng.choice([None, None, None, 1, 2, 3, 5, "1h", "6h", "1D", "2D", "30min", "7h", "90min", "36h"])
         q = {"start": a, "end": b, "filters": filt, "sort": rng.random() < 0.8, "bundle": bundle,
              "only_path": rng.random() < 0.15, "nfe": rng.random() < 0.25}
+        if bins:
+            q["bundle"] = bin_freq if rng.random() < 0.75 else rng.choice(EDGE_FREQS)
+            q["sort"] = True
         qs.append(q)
     case["queries"] = qs
     case["contains"] = [instant() for _ in range(3)]
@@ -386,6 +418,16 @@ def build_tree(case, root):
             Path(d, "sub.dat").mkdir(exist_ok=True)
             Path(d, "sub.dat", Path(paths[0]).name if paths else "x.dat").touch()
     return paths
+
+
+def has_ties(case):
+    keys = [(f["t0"], f["t1"]) for f in case["files"]]
+    return len(set(keys)) < len(keys)
+
+
+def wants_stream(q):
+    """queries whose result goes through sorted(): sort=True, or bundles by count (always sorted)"""
+    return bool(q["sort"] or isinstance(q["bundle"], int))
 
 
 def run_impl(case):
@@ -438,7 +480,17 @@ def run_impl(case):
                 want = {k: v for k, v in f["attrs"].items()}
                 if dict(x.attr) != want:
                     obs["coverage"].append([i, "attr", dict(x.attr)])
+        ties = has_ties(case)
         for q in case["queries"]:
+            stream = None
+            if ties and wants_stream(q):
+                # the order in which the walk produces the files of this very query (sort=False, no bundles)
+                try:
+                    stream = [ident(x) for x in fs.find(None if q["start"] is None else to_dt(q["start"]),
+                                                        None if q["end"] is None else to_dt(q["end"]),
+                                                        sort=False, filters=q["filters"], no_files_error=False)]
+                except Exception as e:  # noqa
+                    stream = classify_exc(e)
             try:
                 res = list(fs.find(None if q["start"] is None else to_dt(q["start"]),
                                    None if q["end"] is None else to_dt(q["end"]),
@@ -450,12 +502,13 @@ def run_impl(case):
             if q["bundle"] is None:
                 for x in res:
                     note_cov(x)
-                obs["queries"].append({"ids": [ident(x) for x in res], "sizes": None,
+                obs["queries"].append({"ids": [ident(x) for x in res], "sizes": None, "stream": stream,
                                        "paths_only": all(isinstance(x, str) for x in res) if res else None})
             else:
                 ok = all(isinstance(b, list) for b in res)
                 flat = [x for b in res for x in b] if ok else res
                 obs["queries"].append({"ids": [ident(x) for x in flat], "sizes": [len(b) for b in res] if ok else "not-lists",
+                                       "stream": stream,
                                        "paths_only": all(isinstance(x, str) for x in flat) if flat else None})
         for t in case["contains"]:
             try:
@@ -505,7 +558,7 @@ def q_bounds(q):
     return s, e
 
 
-def case_expr(case):
+def case_expr(case, full=True):
     files = []
     for i, f in enumerate(case["files"]):
         at = coq_list([f"({USER_IDS[u]}, {USER_VALUES[u].index(v)})" for u, v in sorted(f["attrs"].items())])
@@ -518,9 +571,10 @@ def case_expr(case):
         w, b = coq_filters(q["filters"])
         bk = q["bundle"] if isinstance(q["bundle"], int) else 0
         bw = FREQS[q["bundle"]] if isinstance(q["bundle"], str) else 0
-        rows.append(f"run_query lay fs (mkq {zlit(s)} {zlit(e)} {w} {b} ex) {bk} {bw}")
+        rows.append(f"run_query_lazy fl hc lay fs (mkq {zlit(s)} {zlit(e)} {w} {b} ex) {bk} {bw}")
     return (f"(let lay := {coq_layout(case)} in let fs := {coq_list(files)} in let ex := {ex} in\n"
-            f"  [[[b2z (hyps lay fs)]]; run_contains lay fs ex {zlit_list(case['contains'])}; run_len lay fs ex]\n"
+            f"  let hc := hyps lay fs in let fl := {'true' if full else 'false'} in\n"
+            f"  [[[b2z hc]]; run_contains_lazy fl hc lay fs ex {zlit_list(case['contains'])}; run_len_lazy fl hc lay fs ex]\n"
             f"  ++ {coq_list(rows)})")
 
 
@@ -555,7 +609,24 @@ def layout_class(case):
     return ("@" + "+".join(tags)) if tags else ""
 
 
-def compare_case(ctx, case, obs, val, nontrivial):
+def grouper_labels(t0s, freq):
+    """what pandas itself does with these start times: [left edge in microseconds, group size] of the non-empty groups
+    (the construction of _prepare_find_return, with the positions instead of the files)"""
+    import pandas as pd
+    if not t0s:
+        return []
+    series = pd.Series(range(len(t0s)), [to_dt(t) for t in t0s])
+    size = series.groupby(pd.Grouper(freq=freq)).size()          # (not iterated: there may be 10^5 empty bins)
+    size = size[size > 0]
+    return [[to_us(label.to_pydatetime()), int(n)] for label, n in zip(size.index, size.values)]
+
+
+def new_stats():
+    return {"model_evaluated": 0, "stream_calls": 0, "walk_is_sorted_listing": 0, "tie_groups": 0,
+            "tie_groups_not_in_id_order": 0, "bin_queries": {}, "bins_compared": 0}
+
+
+def compare_case(ctx, case, obs, val, nontrivial, stats):
     tmpl = template_of(case)
     lc = layout_class(case)
     hyp_case = bool(val[0][0][0])
@@ -567,7 +638,16 @@ def compare_case(ctx, case, obs, val, nontrivial):
     for qi, (q, o, row) in enumerate(zip(case["queries"], obs["queries"], qrows)):
         ctx.cov["evaluations"] += 1
         hq, model, asis, spec, bsizes = bool(row[0][0]), row[1], row[2], row[3], row[4]
+        edges = row[6:]                     # bins of the specified sequence: [number, left edge, right edge, size]
         in_hyp = hyp_case and hq
+        if model == [3]:                    # not evaluated: the specification decides (find_sound_complete)
+            if not in_hyp:
+                ctx.fail("correspondence", "the Coq side skipped the algorithmic model outside the hypotheses",
+                         case=case, signature="coq-eval")
+                continue
+            model = [0] + spec
+        else:
+            stats["model_evaluated"] += 1
         if in_hyp and model != [0] + spec:
             ctx.fail("proof", "find_model and find_spec disagree inside Coq although the hypotheses hold",
                      case=case, model=[model, spec], signature="model-vs-spec")
@@ -628,6 +708,63 @@ def compare_case(ctx, case, obs, val, nontrivial):
                 ctx.fail(kind, f"{desc}: bundles {o['sizes']} do not partition the {len(exp_ids)} files",
                          case=sub, impl=o, signature="find-bundles")
                 continue
+        # --- stability: among equal (t0, t1) the sorted result keeps the order of the unsorted stream of the same
+        # query on the same FileSet (find_sorted_stable; with the order by key this determines the result:
+        # find_result_unique).  The property statement does not fix this order: a deviation is a correspondence failure.
+        if wants_stream(q) and o.get("stream") is not None:
+            u = o["stream"]
+            if not isinstance(u, list) or sorted(u) != sorted(got):
+                ctx.fail("correspondence", f"{desc}: the same call with sort=False gives other files: {u!r:.300} / {got}",
+                         case=sub, impl=[u, got], signature="find-stream-differs")
+                continue
+            stats["stream_calls"] += 1
+            pred = sorted(u, key=lambda i: rel_path(case, case["files"][i]).split("/"))
+            stats["walk_is_sorted_listing"] += int(pred == u)
+            ku, kg = keys_of(case, u), keys_of(case, got)
+            groups = {}
+            for i, k in zip(u, ku):
+                groups.setdefault(k, []).append(i)
+            bad = None
+            for k, want in groups.items():
+                if len(want) > 1:
+                    stats["tie_groups"] += 1
+                    stats["tie_groups_not_in_id_order"] += int(want != sorted(want))
+                    have = [i for i, k2 in zip(got, kg) if k2 == k]
+                    if have != want and bad is None:
+                        bad = (k, want, have)
+            if bad:
+                k, want, have = bad
+                ctx.fail("correspondence",
+                         f"{desc}: the files with coverage {to_dt(k[0])} - {to_dt(k[1])} come out as "
+                         f"{[rel_path(case, case['files'][i]) for i in have][:5]} but the directory walk (sort=False) "
+                         f"produced them as {[rel_path(case, case['files'][i]) for i in want][:5]}: the sort is not stable",
+                         case=sub, impl=have, model=want, signature="find-unstable-sort")
+                continue
+        # --- time bins: the real bundles fill exactly the bins Coq computed for the expected sequence, and pandas'
+        # own labels are the left edges of these bins (bin_edges, bundle_freq_bins)
+        if isinstance(q["bundle"], str) and q["sort"] and exp_ids == spec and isinstance(o["sizes"], list):
+            stats["bin_queries"][q["bundle"]] = stats["bin_queries"].get(q["bundle"], 0) + 1
+            stats["bins_compared"] += len(edges)
+            pos, badbin = 0, None
+            for e, n in zip(edges, o["sizes"]):
+                t0s = [case["files"][i]["t0"] for i in got[pos:pos + n]]
+                pos += n
+                if not all(e[1] <= t < e[2] for t in t0s):
+                    badbin = (e, t0s)
+                    break
+            if badbin:                                    # (unreachable when ids and sizes agree; kept as a direct statement)
+                ctx.fail(kind, f"{desc}: a bundle holds start times {[str(to_dt(t)) for t in badbin[1]][:4]} outside its "
+                         f"bin [{to_dt(badbin[0][1])}, {to_dt(badbin[0][2])})", case=sub, impl=o, model=edges,
+                         signature="find-bundle-edges")
+                continue
+            labels = grouper_labels([case["files"][i]["t0"] for i in exp_ids], q["bundle"])
+            if labels != [[e[1], e[3]] for e in edges]:
+                ctx.fail("correspondence",
+                         f"pandas Grouper(freq={q['bundle']!r}) on the start times of {desc} gives the bins (left edge, size) "
+                         f"{[(str(to_dt(a)), n) for a, n in labels][:4]}, the model [o + k w, o + (k+1) w) anchored at "
+                         f"midnight of the first day gives {[(str(to_dt(e[1])), e[3]) for e in edges][:4]}",
+                         case=sub, impl=labels, model=edges, signature="pandas-grouper-bins-" + q["bundle"])
+                continue
         if q["only_path"] and o["paths_only"] is False:
             ctx.fail(kind, f"{desc}, only_path=True yields FileInfo objects instead of paths", case=sub, impl="FileInfo",
                      signature="only-path-ignored")
@@ -637,6 +774,8 @@ def compare_case(ctx, case, obs, val, nontrivial):
         ctx.cov["evaluations"] += 1
         model, spec, hq = bool(row[0]), bool(row[1]), bool(row[2])
         in_hyp = hyp_case and hq
+        if row[0] == 2:                     # model not evaluated (inside the hypotheses: contains_agrees)
+            model = spec
         if in_hyp and model != spec:
             ctx.fail("proof", "contains_model and the specification disagree inside Coq", case=case, signature="model-vs-spec")
         exp = spec if in_hyp else model
@@ -647,6 +786,8 @@ def compare_case(ctx, case, obs, val, nontrivial):
                      f"template {tmpl}: `{to_dt(t)} in fileset` is {o}, expected {exp}", case=dict(case, queries=[], contains=[t]),
                      impl=o, model=exp, signature="contains" + lc)
     ctx.cov["evaluations"] += 1
+    if len_row[0] == -2:                    # model not evaluated (inside the hypotheses: len_agrees)
+        len_row = [len_row[1], len_row[1]]
     if hyp_case and len_row[0] != len_row[1]:
         ctx.fail("proof", "len_model and the specification disagree inside Coq", case=case, signature="model-vs-spec")
     exp = len_row[1] if hyp_case else len_row[0]
@@ -665,22 +806,46 @@ def _run_impl_safe(case):
         return {"crash": classify_exc(e)}
 
 
-def run_all(cases):
-    """run the real code on every case, in forked worker processes (each case is independent)"""
+def run_all(cases, during=None):
+    """run the real code on every case, in forked worker processes (each case is independent); `during` is called
+    once all workers exist and runs beside them (the Coq evaluation of the same cases)"""
     if len(cases) < 8:
-        return [_run_impl_safe(c) for c in cases]
+        side = during() if during else None
+        return [_run_impl_safe(c) for c in cases], side
     import multiprocessing as mp
     from concurrent.futures import ProcessPoolExecutor
-    with ProcessPoolExecutor(max_workers=min(8, core.NPROC), mp_context=mp.get_context("fork")) as ex:
-        return list(ex.map(_run_impl_safe, cases, chunksize=4))
+    with ProcessPoolExecutor(max_workers=min(16, core.NPROC), mp_context=mp.get_context("fork")) as ex:
+        # with the fork context every worker is started by the first submit, i.e. before `during` starts threads
+        futs = [ex.submit(_run_impl_chunk, cases[k:k + 4]) for k in range(0, len(cases), 4)]
+        side = during() if during else None
+        return [o for f in futs for o in f.result()], side
 
 
-def check_cases(ctx, cases, name="find"):
-    t_a = __import__("time").time()
-    obs = run_all(cases)
-    ctx.log(f"{name}: real code run on {len(cases)} trees in {__import__('time').time() - t_a:.1f}s")
-    vals, log = core.coq_eval(ctx.work / "cases", name, PREAMBLE, [case_expr(c) for c in cases],
-                              shard=max(3, min(20, -(-len(cases) // 48))))
+def _run_impl_chunk(chunk):
+    return [_run_impl_safe(c) for c in chunk]
+
+
+def is_full(ctx, case):
+    """is the algorithmic model evaluated although the specification decides?  always in the quick tier and in a
+    replay, for every fourth case in the thorough tier (find_sound_complete makes it redundant)"""
+    return (not ctx.thorough) or case["id"] % 4 == 0
+
+
+def check_cases(ctx, cases, name="find", stats=None, full=None):
+    import time
+    stats = new_stats() if stats is None else stats
+    t_a = time.time()
+    exprs = [case_expr(c, is_full(ctx, c) if full is None else full) for c in cases]
+    t_coq = {}
+
+    def evaluate():
+        t_b = time.time()
+        r = core.coq_eval(ctx.work / "cases", name, PREAMBLE, exprs, shard=max(3, min(12, -(-len(cases) // 64))))
+        t_coq["s"] = time.time() - t_b
+        return r
+    obs, (vals, log) = run_all(cases, evaluate)
+    ctx.log(f"{name}: real code run on {len(cases)} trees and Coq evaluation ({t_coq.get('s', 0):.1f}s) side by side "
+            f"in {time.time() - t_a:.1f}s")
     if log:
         ctx.log(log[-2000:])
     nontrivial, n_hyp = set(), 0
@@ -692,7 +857,7 @@ def check_cases(ctx, cases, name="find"):
             ctx.fail("correspondence", f"FileSet({template_of(c)!r}) could not be built / run: {o['crash']}", case=c,
                      impl=o, signature="fileset-crash")
             continue
-        if compare_case(ctx, c, o, v, nontrivial):
+        if compare_case(ctx, c, o, v, nontrivial, stats):
             n_hyp += 1
         if c["files"] and c["id"] % 5 == 0:
             ctx.sample({"template": template_of(c), "files": [rel_path(c, f) for f in c["files"]][:4],
@@ -738,30 +903,97 @@ def check_single(ctx, n):
 
 # ----------------------------------------------------------------------------- check
 
+def coqchk_own_wanted(ctx):
+    """(before ctx.prove, which starts the library's coqchk unless VERIF_COQCHK=0)"""
+    if not ctx.thorough or os.environ.get("VERIF_COQCHK") is not None:
+        return False
+    os.environ["VERIF_COQCHK"] = "0"
+    return True
+
+
+def coqchk_own_start(ctx):
+    """Thorough tier.  The library's `coqchk Typhon.Props.C01` re-checks the closure WITHOUT the bytecode machine, so
+    the vm_compute sweeps of Base.CalendarProofs (146 097 days) are replayed by plain conversion: Base.CalendarProofs
+    alone needs 916 s, the pass has never finished inside the 13 minutes the library gives it, and every thorough run
+    of C01 lasted exactly 780 s and recorded `not finished`.  C01 runs the same independent re-check of the whole
+    closure with `-bytecode-compiler yes` (coqchk's own option: vm_compute casts are evaluated by the VM, as coqc
+    does), which takes 80 s beside the correspondence and does finish: nothing is admitted.  VERIF_COQCHK=1 in the
+    environment restores the library's pass instead."""
+    import subprocess
+    import time
+    try:
+        pr = subprocess.Popen(["nice", "-n", "5", "coqchk", "-silent", "-o", "-bytecode-compiler", "yes", *core.COQ_ARGS,
+                               "Typhon.Props.C01"], stdout=subprocess.PIPE, stderr=subprocess.STDOUT, text=True,
+                              cwd=str(core.COQ))
+        return pr, time.time()
+    except Exception as e:  # noqa
+        ctx.notes.append(f"coqchk Typhon.Props.C01 not run ({e})")
+        return None
+
+
+def coqchk_own_collect(ctx, started, until_s=420):
+    import re
+    import subprocess
+    import time
+    if started is None:
+        return
+    pr, t0 = started
+    name = "coqchk -bytecode-compiler yes Typhon.Props.C01"
+    try:
+        text, _ = pr.communicate(timeout=max(5, until_s - (time.time() - ctx.t0)))
+    except subprocess.TimeoutExpired:
+        pr.kill()
+        pr.communicate()
+        ctx.obligations.append((name, True, f"not finished after {time.time() - t0:.0f}s, stopped (not a failure: coqc "
+                                            "accepted the files; see tools/coqchk_all.sh)"))
+        return
+    m = re.search(r"\* Axioms:(.*?)\n\s*\n\* Constants/Inductives relying on type-in-type:(.*?)\n\s*\n\* Constants/Inductives "
+                  r"relying on unsafe.*?:(.*?)\n\s*\n\* Inductives whose positivity is assumed:(.*?)\n", text, re.S)
+    if pr.returncode != 0 or not m:
+        ctx.obligations.append((name, False, text[-800:]))
+        ctx.failures.append(core.Failure("proof", f"coqchk rejects Typhon.Props.C01 (rc={pr.returncode}): {text[-600:]}",
+                                         obligation=name, signature="coqchk"))
+        return
+    axioms = [a.strip() for a in m.group(1).split("\n") if a.strip() and a.strip() != "<none>"]
+    bad = " ".join(x.strip() for x in m.groups()[1:] if x.strip() != "<none>")
+    if bad:
+        ctx.failures.append(core.Failure("gate", f"coqchk reports disabled checks in Typhon.Props.C01: {bad}",
+                                         obligation=name, signature="coqchk-unsafe"))
+    ctx.obligations.append((name, not bad, {"wall_s": round(time.time() - t0, 1),
+                                            "axioms_of_all_loaded_libraries": axioms}))
+    ctx.log(f"{name}: ok in {time.time() - t0:.0f}s, {len(axioms)} axioms in the loaded libraries")
+
+
 def run(ctx):
-    ctx.prove("Props/C01.v")
-    n_main = ctx.n(110, 1300)
+    own = coqchk_own_wanted(ctx)
+    proved = ctx.prove("Props/C01.v")
+    chk = coqchk_own_start(ctx) if own and proved else None
+    n_main = ctx.n(100, 1300)
     n_long = ctx.n(12, 130)
     n_gap = ctx.n(8, 80)
+    n_bins = ctx.n(16, 160)
     n_zip = ctx.n(0, 160)
     cases = [gen_case(ctx.rng, k, "main") for k in range(n_main)]
-    cases += [gen_case(ctx.rng, n_main + k, "long") for k in range(n_long)]
-    cases += [gen_case(ctx.rng, n_main + n_long + k, "gap") for k in range(n_gap)]
+    cases += [gen_case(ctx.rng, len(cases) + k, "long") for k in range(n_long)]
+    cases += [gen_case(ctx.rng, len(cases) + k, "gap") for k in range(n_gap)]
+    cases += [gen_case(ctx.rng, len(cases) + k, "bins") for k in range(n_bins)]
     zips = []
-    for k in range(n_zip):
-        c = gen_case(ctx.rng, len(cases) + k, "main")
-        c["zip"] = True
-        zips.append(c)
-    nontrivial, n_hyp = check_cases(ctx, cases)
-    if zips:
+    if n_zip:
         try:
             import fsspec.implementations.zip  # noqa
-            nt2, nh2 = check_cases(ctx, zips, "zip")
-            nontrivial |= nt2
-            n_hyp += nh2
+            for k in range(n_zip):
+                c = gen_case(ctx.rng, len(cases) + k, "bins" if k % 8 == 7 else "main")
+                c["zip"] = True
+                zips.append(c)
         except ImportError:
             ctx.notes.append("fsspec zip file system not importable: zip tier skipped")
+    stats = new_stats()
+    # local and zip trees in one pass: one pool of workers for the real code, one set of Coq shards beside it
+    nontrivial, n_hyp = check_cases(ctx, cases + zips, stats=stats)
+    ctx.log(f"compared: {ctx.cov['evaluations']} evaluations, {stats['tie_groups']} groups of equal coverage, "
+            f"{stats['bins_compared']} time bins")
     check_single(ctx, ctx.n(20, 200))
+    coqchk_own_collect(ctx, chk)
     ctx.cov["distinct_nontrivial"] = len(nontrivial)
     ctx.cov["rule"] = ("one evaluation = one find() / `in` / len() call on a harness-built tree compared with the Coq "
                        "specification (inside the hypotheses) or algorithmic model (outside); a find() call is non-trivial "
@@ -770,13 +1002,20 @@ def run(ctx):
     allc = cases + zips
     ctx.cov["input_distribution"] = {
         "cases": len(allc), "zip_cases": len(zips), "cases_inside_hypotheses": n_hyp,
-        "streams": {s: sum(1 for c in allc if c["stream"] == s) for s in ("main", "long", "gap")},
+        "streams": {s: sum(1 for c in allc if c["stream"] == s) for s in ("main", "long", "gap", "bins")},
         "directory_depth": {str(d): sum(1 for c in allc if len(c["chunks"]) == d) for d in range(0, 9)
                             if any(len(c["chunks"]) == d for c in allc)},
         "files_total": sum(len(c["files"]) for c in allc),
         "with_exclusions": sum(1 for c in allc if c["exclude_names"] or c["exclude_periods"]),
         "queries_with_filters": sum(1 for c in allc for q in c["queries"] if q["filters"]),
         "queries_with_bundles": sum(1 for c in allc for q in c["queries"] if q["bundle"] is not None),
+        "stability": {"queries_with_unsorted_stream_observed": stats["stream_calls"],
+                      "of_which_walk_equals_sorted_listing": stats["walk_is_sorted_listing"],
+                      "groups_of_equal_coverage_checked": stats["tie_groups"],
+                      "of_which_walked_in_another_order_than_created": stats["tie_groups_not_in_id_order"]},
+        "time_bins": {"queries_compared_bin_by_bin": dict(sorted(stats["bin_queries"].items())),
+                      "bins_compared_with_pandas_labels": stats["bins_compared"]},
+        "find_calls_with_algorithmic_model_evaluated": stats["model_evaluated"],
     }
     ctx.assumptions += [
         "hypotheses of find_sound_complete, evaluated per case inside Coq: no_gaps layout, every file rendered into "
@@ -785,7 +1024,10 @@ def run(ctx):
         "a {doy} directory level is never above the {year} level (typhon needs the year to resolve the day of the "
         "year and raises KeyError otherwise; the Coq layout only sees doy as month + day)",
         "user placeholder values are alphabetic words none of which is a prefix of another (the black list uses re.match)",
-        "string bundles are tick frequencies (30min, 1h, 6h, 7h, 1D, 2D) and are compared in full only with sort=True",
+        "string bundles are fixed-width frequencies (30min, 1h, 90min, 6h, 7h, 1D, 36h, 2D; calendar-dependent ones such "
+        "as 'ME' or 'W' are outside the model) and are compared in full only with sort=True",
+        "stability is checked against the stream the same FileSet yields with sort=False for the same period and "
+        "filters (the walk must be repeatable between two calls: fsspec's glob sorts its listing)",
     ]
     return ctx.finish(trusted_base=TRUSTED)
 
@@ -795,7 +1037,7 @@ def replay(ctx, rec):
     if "single" in case:
         ctx.log("single-file case: re-run the check")
         return 1
-    check_cases(ctx, [case], "replay")
+    check_cases(ctx, [case], "replay", full=True)
     for f in ctx.failures:
         print("still fails:", f.what[:400])
     return 1 if ctx.failures else 0
